@@ -40,7 +40,7 @@ ASSUMPTIONS = [
     'DEBUG mode is excluded (it deliberately re-raises without restoring); RESET "<network>" is excluded (needs a network).',
     'Lazy-diff update lists are compared as sets keyed by key_hash (their order depends on hash seeds).',
 ]
-EXPECTED_PROBES = ['failed_after_exec_of_context_changing_lambda', 'run_failed_inside_contract_code', 'failed_after_origination_or_sapling_index', 'failed_after_registering_chain_big_map', 'failed_after_alloc_tmp_id', 'failed_after_context_patch', 'commit_after_failure_two_big_maps', 'fault_injected_exit', 'fault_injected_entry',
+EXPECTED_PROBES = ['cell_failed_on_node_error', 'failed_after_exec_of_context_changing_lambda', 'run_failed_inside_contract_code', 'failed_after_origination_or_sapling_index', 'failed_after_registering_chain_big_map', 'failed_after_alloc_tmp_id', 'failed_after_context_patch', 'commit_after_failure_two_big_maps', 'fault_injected_exit', 'fault_injected_entry',
                    'failure_inside_nested_block', 'failed_run_after_clear', 'failed_begin', 'failed_commit']
 
 KV = 'int string'
@@ -109,6 +109,10 @@ NEUTRAL = [
     ['SAPLING_EMPTY_STATE 8', 'DROP'],
     ['PATCH BALANCE 1000', 'PUSH nat 5', 'PUSH string "tk"', 'TICKET', 'DROP'],
     ['PATCH SENDER "tz1VSUr8wwNhLAzempoch5d6hLRiTh8Cjcjb"'],
+    # instructions that ask the node (the sessions are attached to one): a node failure inside a cell is a failure of that cell
+    ['PUSH int 4', 'BALANCE', 'DROP', 'DROP'],
+    ['EMPTY_BIG_MAP int string', 'NOW', 'DROP', 'DROP'],
+    ['PUSH int 1', 'LEVEL', 'DROP', 'DROP'],
 ]
 
 
@@ -242,6 +246,7 @@ def gen(seed, tier):
     ty, lits, nbm = STORAGES[shape]
     pty, plits = PARAMS.get(shape, ('unit', ['Unit']))
     p_fail = rng.choice([0.1, 0.25, 0.4])
+    p_rpc_fault = rng.choice([0.0, 0.0, 0.1, 0.3])
     modes = [m for m in ('prefix', 'inject') if rng.random() < 0.7] or ['prefix']
     tails = [t for t in sorted(FAIL_TAILS) if rng.random() < 0.5] or ['failwith']
     steps = []
@@ -267,7 +272,11 @@ def gen(seed, tier):
                 src = cell if rng.random() < 0.8 else list(rng.choice(NEUTRAL))
                 j = rng.randint(1, len(src) + 2)
                 steps.append({'instrs': list(src), 'plan': {'mode': 'inject', 'ordinal': j, 'when': rng.choice(['entry', 'exit', 'exit'])}})
-        steps.append({'instrs': list(cell)})
+        good = {'instrs': list(cell)}
+        if rng.random() < p_rpc_fault:
+            # a definitive node failure on the k-th request issued while this cell runs (if it issues that many)
+            good['rpc_fault'] = {'at': rng.choice([1, 1, 2, 3]), 'how': rng.choice(['perm', 'perm', 'exc', 'cap'])}
+        steps.append(good)
     return {'prop': ID, 'shape': shape, 'steps': steps}
 
 
@@ -315,7 +324,19 @@ def execute(scn, want_log=False):
     node.bake(2)
     for bm, content in CHAIN_BIG_MAPS.items():
         node.big_maps[bm] = {c15.key_hash('int', k): {'string': v} for k, v in content.items()}
+    node.contracts['KT1BEqzn5Wx8uJrZNvuS9DVHmLvG9td3fDLi'] = {'code': [], 'storage': {'prim': 'Unit'}}  # the REPL's default self address (BALANCE)
     tr = core.Transport(sim, node.handle, max_requests=5000)
+    cellf = {'first': 0, 'fault': None}
+
+    def fault_for(req):
+        f = cellf['fault']
+        if f and req['i'] - cellf['first'] == f['at']:
+            cellf['fault'] = None
+            return {'perm': {'f': 'reject', 'how': 'perm'}, 'exc': {'f': 'reject', 'how': 'exc'}, 'cap': {'f': 'transient', 'n': 6, 'status': 503}}[f['how']]
+        return None
+
+    tr.fault_for = fault_for
+    scn = dict(scn, _tr=tr, _cellf=cellf)
     seams = core.Seams(sim, tr).install()
     try:
         return _execute(scn, want_log, Interpreter, lambda: ShellQuery(RpcNode(URI)), sim, node)
@@ -347,7 +368,11 @@ def _execute(scn, want_log, Interpreter, make_shell, sim, node):
         fault = {'ordinal': plan['ordinal'], 'when': plan['when']} if plan.get('mode') == 'inject' else None
         depth_before = len(a.stack.items)
         bms_before = sum(1 for x in a.stack.items if 'big_map' in json.dumps(rs.render_item(x).get('type')))
+        tr, cellf = scn['_tr'], scn['_cellf']
+        cellf['first'], cellf['fault'] = tr.attempts, (dict(st['rpc_fault']) if st.get('rpc_fault') else None)
         res_a, count, fired = rs.run_cell(a, text, fault)
+        rpc_fired = bool(st.get('rpc_fault')) and cellf['fault'] is None
+        cellf['fault'] = None
         ra = rs.render_result(res_a)
         log.append({'i': i, 'cell': text, 'plan': plan or None, 'a_error': ra['error'], 'executed': count, 'fired': fired})
         if res_a.error is not None:
@@ -360,6 +385,10 @@ def _execute(scn, want_log, Interpreter, make_shell, sim, node):
                 bump(probes, 'fault_injected_' + fired[1])
             if 'EMPTY_BIG_MAP' in text:
                 bump(probes, 'failed_after_alloc_tmp_id')
+            if rpc_fired:
+                bump(probes, 'cell_failed_on_node_error')
+                if isinstance(res_a, rs.EscapedFailure):
+                    bump(probes, 'failure_escaped_execute')
             if 'PATCH' in text:
                 bump(probes, 'failed_after_context_patch')
             if 'EXEC' in text and 'LAMBDA' not in text:
@@ -381,8 +410,10 @@ def _execute(scn, want_log, Interpreter, make_shell, sim, node):
             pos = 'k0' if plan.get('k') == 0 else ('end' if plan.get('k') == len(st['instrs']) else 'mid')
             states.add(f'd{min(depth_before, 3)}/bm{min(bms_before, 3)}/{scn["shape"]}/{pos}/{last_fail}/{plan.get("tail", "-")}')
             continue
-        # common cell: run in B with the same (non-firing or absent) fault directive
+        # common cell: run in B with the same (non-firing or absent) fault directives
+        cellf['first'], cellf['fault'] = tr.attempts, (dict(st['rpc_fault']) if st.get('rpc_fault') else None)
         res_b, _, _ = rs.run_cell(b, text, fault)
+        cellf['fault'] = None
         rb = rs.render_result(res_b)
         if failed_any:
             compared += 1
@@ -450,6 +481,10 @@ def simplify(scn):
             k = st['plan']['k']
             c['steps'][i]['instrs'] = st['instrs'][k:]
             c['steps'][i]['plan']['k'] = 0
+            yield c
+        if st.get('rpc_fault'):
+            c = cp()
+            del c['steps'][i]['rpc_fault']
             yield c
         if st.get('plan', {}).get('mode') == 'inject':
             c = cp()
